@@ -131,11 +131,58 @@ def stub_valid(p):
     return run
 
 
-FAMILIES = {'compress': compress, 'decompress': decompress, 'stub_valid': stub_valid}
+class RealReplay(object):
+    """the real wrappers over the real zlib / zstandard on concrete chunkings that mirror the shapes the symbolic obligations quantify over
+    (every cut pair of a short stream incl. empty chunks before / between / after the data, every truncation point): the replay target on the
+    real build for counterexamples found over the stub.  A concrete run, not the deciding step."""
+
+    def __init__(self, p):
+        self.p = p
+
+    def _cases(self):
+        import itertools
+        for codec, mod in (('gzip', Z), ('zstd', ZS)):
+            for msg in ([], [b''], [b'ab'], [b'a', b'', b'bc']):
+                comp, done = _run(msg, mod.compress())
+                whole = b''.join(comp)
+                n = len(whole)
+                cuts = sorted(set([0, 1, 2, n // 2, n - 1, n]))
+                for c1, c2 in itertools.combinations_with_replacement(cuts, 2):
+                    yield codec, mod, msg, [whole[:c1], whole[c1:c2], whole[c2:]], None
+                    yield codec, mod, msg, [whole[:c1], whole[c1:c2], whole[c2:], b''], None
+                for t in cuts[:-1]:
+                    yield codec, mod, msg, [whole[:t // 2], whole[t // 2:t]], 'trunc'
+
+    def __call__(self):
+        n = 0
+        for codec, mod, msg, chunks, kind in self._cases():
+            n += 1
+            out, done = _run(chunks, mod.decompress())
+            if kind == 'trunc':
+                ok = done == ['E']
+            else:
+                ok = done == ['C'] and b''.join(out) == b''.join(msg)
+            if not ok:
+                return dict(verdict='REFUTED', paths=n, solver_queries=0, solver_s=0.0, cex=dict(args=[dict(codec=codec, msg=[list(m) for m in msg], chunks=[list(c) for c in chunks], kind=kind)], kwargs={}),
+                            detail=dict(codec=codec, message=repr(msg), chunks=repr(chunks), observed=repr(b''.join(out)), done=done, expected='on_error' if kind else 'payload then on_completed'))
+        return dict(verdict='CONFIRMED', paths=n, solver_queries=0, solver_s=0.0)
+
+    def replay(self, args):
+        a = args[0]
+        mod = Z if a['codec'] == 'gzip' else ZS
+        chunks = [bytes(c) for c in a['chunks']]
+        msg = b''.join(bytes(m) for m in a['msg'])
+        out, done = _run(chunks, mod.decompress())
+        ok = (done == ['E']) if a['kind'] else (done == ['C'] and b''.join(out) == msg)
+        return dict(reproduced=not ok, detail=dict(observed=repr(b''.join(out)), done=done))
+
+
+FAMILIES = {'compress': compress, 'decompress': decompress, 'stub_valid': stub_valid, 'real_replay': RealReplay}
 
 
 def obligations(tier, seed):
-    obs = [Ob(PROP, 'stub_valid', {}, kind='direct', budget=120, group='stub validation')]
+    obs = [Ob(PROP, 'stub_valid', {}, kind='direct', budget=120, group='stub validation'),
+           Ob(PROP, 'real_replay', {}, kind='direct', budget=120, group='real-library replay scenarios')]
     q = tier == 'quick'
     b = 240 if q else 1500
     shapes = [[], [0], [1], [2], [1, 1], [0, 2], [2, 0], [1, 0, 1]] if q else [[], [0], [1], [2], [3], [1, 1], [0, 2], [2, 0], [1, 0, 1], [2, 2], [1, 2, 1]]
